@@ -333,7 +333,7 @@ def claim_r6rs_char(cx, res, kf):
     ini = rd.at(i0)
     nxt = rd.at(i0 + 1)
     eof1 = z3.UGE(i0 + 1, rd.len)
-    DELIM = cx.statics["DELIMITER"]["bytes"]
+    DELIM = char_delimiters(cx, res)
     delim1 = z3.Or(eof1, *[nxt == bv(c) for c in DELIM])
     seen = {"single": 0, "hex": 0, "x": 0}
     for t in terms:
@@ -466,6 +466,22 @@ def claim_elisp_char(cx, res, kf):
     res.vacuity.append(("elisp hex steps", steps > 0 and ends > 0))
 
 
+# what ends a character name / the hex digits of `#\\x`: the documented delimiter set (the spec is NOT read from the code)
+CHAR_DELIMITERS = b'()[]";# \n\t\r\x0c'
+
+
+def char_delimiters(cx, res):
+    got = cx.statics.get("DELIMITER", {}).get("bytes")
+    if got is None or set(got) != set(CHAR_DELIMITERS):
+        from . import confirm as CF
+        v = {"what": "the compiled character-delimiter table is %r, documented set is %r (a character directly before one of the missing "
+             "bytes, e.g. the closing bracket of a vector, is misread)" % (sorted(set(got or b"")), sorted(set(CHAR_DELIMITERS))), "replayed": None}
+        v.update(CF.confirm(("chars",), res)(None))
+        if not any(x.get("what") == v["what"] for x in res.violations):
+            res.violations.append(v)
+    return CHAR_DELIMITERS
+
+
 def hexval(b):
     return z3.If(z3.And(z3.UGE(b, bv(48)), z3.ULE(b, bv(57))), b - bv(48),
                  z3.If(z3.And(z3.UGE(b, bv(97)), z3.ULE(b, bv(102))), b - bv(87),
@@ -581,7 +597,7 @@ def claim_digit_loops(cx, res, kf):
     # ---- #\x<hex>: n0 = 0, first = true; ends at a delimiter / EOF (not consumed) with None iff no digit was read
     eng, rd, fn, info, terms = run_kernel(cx, res, "decode_r6rs_char_hex_escape")
     nloc, floc = fn.local_by_debug("n"), fn.local_by_debug("first")
-    DELIM = cx.statics["DELIMITER"]["bytes"]
+    DELIM = char_delimiters(cx, res)
     done = set()
     cnt = {"step": 0, "none": 0, "some": 0}
     for t in terms:
